@@ -14,7 +14,16 @@ Oracles (all written here, none calls the code under test for its expectation):
 * refusal: obs(target) before == after for every planted conflict that armi refuses; a named conflict that is
   accepted is a violation.
 * macroscopic: 6-line numpy reference sum_i N_i * sigma_i (* multiplier_i), linearity, additivity, empty composition,
-  derived sums from their definitions.
+  derived sums from their definitions; the creator is driven with libType="micros" AND libType="gammaXS" (what
+  macroXSGenerationInterface passes), with nucNames=, with compositions naming nuclides the library lacks (zero density:
+  no contribution; positive density: documented ValueError), and the group constants with multLib= (multiplier from a
+  second library).
+* COMPXS (region) libraries: generated CompxsLibrary objects (written and read back with armi's COMPXS writer/reader) and
+  the repo's COMPXS.ascii are merged in every order; model = concatenation of the sources' regions in merge order
+  (labels 0..n-1, every region byte-identical to its source, per-region metadata vectors concatenated, counts summed,
+  common values kept); another group structure must be refused and leave the target unchanged.
+* a refused merge that changed the target is keyed by WHAT changed (for a modified nuclide: the kind of data it clashes on and
+  the parts of it that differ), so that only the ways in which armi is non-atomic today are known findings.
 """
 import copy
 import itertools
@@ -31,13 +40,16 @@ RULE = (
     "matrices, optional file-wide chi / dose factors, some pre-merged composites), ALL orders (<=120) of every set; plus subsets of "
     "the six repo fixture libraries. conflict: a case = one (target, offending library, conflict kind, clash position). macro: a case "
     "= one (library, suffix, composition pair) - compositions include zero densities, nuclides missing from the library and the empty "
-    "map. Non-trivial = at least two libraries with data / a composition with >=1 nuclide present in the library."
+    "map; neutron and gamma tables, nucNames= subsets, a second library as multLib=. compxs: a case = one (set of 2-4 region libraries of 1-4 "
+    "regions, merge order, into empty or into the first) or one (target, offender with another group structure / file metadata). "
+    "Non-trivial = at least two libraries with data / a composition with >=1 nuclide present in the library."
 )
 TOLERANCES = {"stored_data": "exact (dtype, shape and bytes of every array; type and value of every scalar)",
               "macro_rel": 1e-12, "macro_rel_note": "relative to the sum of magnitudes of the summed terms; x4 for sums recomputed from several "
               "armi calls, x8 for removal/diffusion, x16 for linearity of the creator's outputs", "chi_rel": 1e-9}
 EXHAUSTIVE = {"quick": False, "thorough": False}
-EXHAUSTIVE_PART = "all merge orders (m! <= 120) of every generated library set; all 2- and 3-subsets of the 6 fixture libraries in all orders"
+EXHAUSTIVE_PART = ("all merge orders (m! <= 120) of every generated library set; all 2- and 3-subsets of the 6 fixture libraries in all orders; "
+                   "all orders (m! <= 24) of every COMPXS library set")
 TIMEOUT = {"quick": 600, "thorough": 3600}
 ASSUMPTIONS = [
     "C10: compositions are presented through a duck-typed block (getNuclides/getMicroSuffix/getNuclideNumberDensities/getNumberDensities), "
@@ -46,16 +58,29 @@ ASSUMPTIONS = [
     "that is absent and one that holds None (metadata[key] returns None for both)",
     "C10: library-level neutronVelocity is documented as 'use the first one' - judged only as 'equals the velocity of some source'; "
     "XSCollection.source / libraryLabel / fileNames order / nuclide label order are order records, not content",
+    "C10: a COMPXS merge appends regions, so region numbering follows the merge order by design; judged per order against the concatenation "
+    "of the sources, and across orders as a multiset of regions. CompxsRegion.regionNumber of a merged region is not judged (the library key is)",
 ]
+_KINDS_FLOOR = ("same-label-same-kind", "same-label-same-kind/premerged", "neutron-bounds", "gamma-bounds", "dose-factors", "file-metadata")
 FLOORS = {
-    "quick": {"merge.order": 400, "merge.nuclide-identity": 2000, "merge.order-independence": 300, "merge.library-level": 400,
-              "conflict.refused": 60, "conflict.unchanged-check": 60, "macro.groupconstant": 500, "macro.linearity": 300,
-              "macro.additivity": 300, "macro.creator": 60, "macro.derived": 60, "macro.totalscatter": 100, "macro.energy": 60,
-              "macro.empty": 20, "fixture.order": 100, "fixture.conflict": 4, "fixture.macro": 20},
-    "thorough": {"merge.order": 8000, "merge.nuclide-identity": 40000, "merge.order-independence": 6000, "merge.library-level": 8000,
-                 "conflict.refused": 1200, "conflict.unchanged-check": 1200, "macro.groupconstant": 10000, "macro.linearity": 6000,
-                 "macro.additivity": 6000, "macro.creator": 1200, "macro.derived": 1200, "macro.totalscatter": 2000, "macro.energy": 1200,
-                 "macro.empty": 400, "fixture.order": 300, "fixture.conflict": 4, "fixture.macro": 100},
+    "quick": dict({"merge.order": 400, "merge.nuclide-identity": 2000, "merge.order-independence": 300, "merge.library-level": 400,
+                   "conflict.refused": 60, "conflict.unchanged-check": 60, "macro.groupconstant": 500, "macro.linearity": 300,
+                   "macro.additivity": 300, "macro.creator": 60, "macro.derived": 60, "macro.totalscatter": 100, "macro.energy": 60,
+                   "macro.empty": 20, "fixture.order": 100, "fixture.conflict": 4, "fixture.macro": 12,
+                   "macro.creator-gamma": 150, "macro.derived-gamma": 150, "macro.creator-missing": 150, "macro.creator-nucnames": 80,
+                   "macro.multlib": 250, "macro.energy-missing": 300,
+                   "compxs.order": 30, "compxs.region-identity": 250, "compxs.library-level": 30, "compxs.order-independence": 25,
+                   "compxs.conflict.refused/group-structure": 45, "compxs.unchanged-check": 60},
+                  **{"conflict.refused/%s" % k: 10 for k in _KINDS_FLOOR}),
+    "thorough": dict({"merge.order": 8000, "merge.nuclide-identity": 40000, "merge.order-independence": 6000, "merge.library-level": 8000,
+                      "conflict.refused": 1200, "conflict.unchanged-check": 1200, "macro.groupconstant": 10000, "macro.linearity": 6000,
+                      "macro.additivity": 6000, "macro.creator": 1200, "macro.derived": 1200, "macro.totalscatter": 2000, "macro.energy": 1200,
+                      "macro.empty": 400, "fixture.order": 170, "fixture.conflict": 4, "fixture.macro": 100,
+                      "macro.creator-gamma": 3000, "macro.derived-gamma": 3000, "macro.creator-missing": 3000, "macro.creator-nucnames": 1500,
+                      "macro.multlib": 5000, "macro.energy-missing": 6000,
+                      "compxs.order": 1200, "compxs.region-identity": 10000, "compxs.library-level": 1200, "compxs.order-independence": 1000,
+                      "compxs.conflict.refused/group-structure": 900, "compxs.unchanged-check": 1200},
+                     **{"conflict.refused/%s" % k: 200 for k in _KINDS_FLOOR}),
 }
 
 # (armi nuclide name, 4-character library label) - the generator's own table, confirmed against armi at shard start
@@ -87,13 +112,14 @@ def plan(tier, seed):
     shards.append({"name": "fixture-merge", "kind": "fixmerge", "big": 1 if q else 6})
     shards.append({"name": "fixture-conflict", "kind": "fixconflict"})
     shards.append({"name": "fixture-macro", "kind": "fixmacro", "n": 12 if q else 150})
+    shards.append({"name": "compxs-merge", "kind": "compxs", "n": 30 if q else 600})
     return shards
 
 
 def run_shard(spec, rec):
     _confirm_pool()
     {"merge": do_merge, "conflict": do_conflict, "macro": do_macro, "fixmerge": do_fixmerge,
-     "fixconflict": do_fixconflict, "fixmacro": do_fixmacro}[spec["kind"]](spec, rec)
+     "fixconflict": do_fixconflict, "fixmacro": do_fixmacro, "compxs": do_compxs}[spec["kind"]](spec, rec)
 
 
 def _confirm_pool():
@@ -773,8 +799,41 @@ def _cleanup(sources=None):
 CONFLICTS = ("same-label-same-kind", "same-label-same-kind/premerged", "neutron-bounds", "gamma-bounds", "dose-factors", "file-metadata")
 
 
-def classify_changes(before, after):
-    """Which classes of target state changed during a refused merge."""
+def _part_token(key):
+    """Observation key of a nuclide -> the part of the nuclide it belongs to."""
+    if key in ("isotxsMetadata", "gamisoMetadata", "pmatrxMetadata", "micros", "gammaXS"):
+        return key
+    return "pmatrxData" if key in PM_ATTRS else "identity"
+
+
+def nuclide_change_variant(bn, an, offn):
+    """How an existing nuclide of the target differs after a refused merge: (clash kinds, changed parts, chiFlag rewritten?).
+
+    clash kinds = the kinds of data that both the target's nuclide (before) and the offender's nuclide of that label hold;
+    changed parts = which parts of the observation differ; a part that held data before is marked '!overwritten'."""
+    tokens, chi = set(), False
+    for k in sorted(set(bn) | set(an)):
+        if bn.get(k) == an.get(k):
+            continue
+        if k in ("isotxsMetadata", "gamisoMetadata") and isinstance(bn.get(k), dict) and isinstance(an.get(k), dict):
+            if {x: v for x, v in bn[k].items() if x != "chiFlag"} == {x: v for x, v in an[k].items() if x != "chiFlag"}:
+                chi = True
+                continue
+        tok = _part_token(k)
+        if tok != "identity" and not is_empty_part(bn.get(k)):
+            tok += "!overwritten"
+        tokens.add(tok)
+    clash = []
+    if offn is not None:
+        for kind, parts in PARTS.items():
+            if not all(is_empty_part(bn[p]) for p in parts) and not all(is_empty_part(offn[p]) for p in parts):
+                clash.append(kind)
+    return clash, sorted(tokens), chi
+
+
+def classify_changes(before, after, offender=None):
+    """Which classes of target state changed during a refused merge (offender = observation of the refused library
+    taken before the merge; it names the kind of data the modified nuclide clashes on)."""
     changes = {}
     if after["labels"] != before["labels"] or after["dictLabels"] != before["dictLabels"]:
         changes["nuclides-added"] = {"before": len(before["labels"]), "after": len(after["labels"])}
@@ -784,22 +843,25 @@ def classify_changes(before, after):
     mch = diff_paths(before["meta"], after["meta"])
     if mch:
         changes["library-metadata"] = {"paths": mch[:5]}
-    chi, other = [], []
+    chi = []
     for label, bn in before["nuclides"].items():
         an = after["nuclides"].get(label)
         if an is None:
-            other.append(label + " (removed)")
+            changes.setdefault("existing-nuclide-removed", {"labels": []})["labels"].append(label)
             continue
         if an != bn:
-            paths = diff_paths(bn, an)
-            if all(p.endswith("isotxsMetadata/chiFlag") or p.endswith("gamisoMetadata/chiFlag") for p in paths):
+            offn = None if offender is None else offender["nuclides"].get(label)
+            clash, tokens, chiOnly = nuclide_change_variant(bn, an, offn)
+            if chiOnly:
                 chi.append(label)
-            else:
-                other.append("%s: %s" % (label, paths[:4]))
+            if tokens:
+                # the variant is part of the mechanism key: only the ways in which a refused merge modifies a nuclide TODAY are known
+                cls = "existing-nuclide-modified/%s-clash/%s" % ("+".join(clash) if clash else "no", "+".join(tokens))
+                det = changes.setdefault(cls, {"what": []})
+                if len(det["what"]) < 4:
+                    det["what"].append("%s: %s" % (label, diff_paths(bn, an)[:4]))
     if chi:
         changes["nuclide-chiFlag-rewritten"] = {"labels": chi[:6]}
-    if other:
-        changes["existing-nuclide-modified"] = {"what": other[:4]}
     return changes
 
 
@@ -809,14 +871,16 @@ STAGE_OF = {"same-label-same-kind": "clash", "same-label-same-kind/premerged": "
 
 def judge_refusal(rec, target, offender, before, conflict, witness, named=True, hit="conflict"):
     """Merge an offending library; armi must refuse and leave the target as observed before."""
+    offObs = obs(offender)
     try:
         target.merge(offender)
     except Exception as e:
         rec.hit(hit + ".refused")
+        rec.hit("%s.refused/%s" % (hit, conflict))
         rec.reject("%s refused with %s" % (conflict, type(e).__name__))
         after = obs(target)
         rec.hit(hit + ".unchanged-check")
-        changes = classify_changes(before, after)
+        changes = classify_changes(before, after, offObs)
         for cls, det in sorted(changes.items()):
             rec.violation("merge/refused-but-target-changed/%s-before-%s" % (cls, STAGE_OF[conflict]),
                           "merge refused (%s: %s) but the target changed: %s %s" % (type(e).__name__, str(e)[:120].replace("\n", " "), cls, det),
@@ -825,7 +889,7 @@ def judge_refusal(rec, target, offender, before, conflict, witness, named=True, 
     if named:
         rec.violation("merge/conflict-silently-merged/%s" % conflict, "conflicting library (%s) was merged without an error" % conflict, witness)
     else:
-        rec.skip("file-metadata difference accepted by armi (not a conflict the property names)")
+        rec.skip("file-metadata difference accepted by armi (not a conflict the property names): %s" % witness.get("detail"))
     return "accepted", {}
 
 
@@ -837,6 +901,11 @@ def do_conflict(spec, rec):
         rng = random.Random("%s:%d" % (base, i))
         conflict = CONFLICTS[i % len(CONFLICTS)] if i < 4 * len(CONFLICTS) else rng.choice(CONFLICTS)
         fam, specs = gen_legal_set(rng, "c%d" % i, m=rng.choice([1, 2, 2, 3]), allowComposite=False)
+        if conflict == "dose-factors":
+            # make the kind applicable: the family carries dose factors and the target holds a PMATRX library
+            fam["dose"] = True
+            if not any(s_["kind"] == "pmatrx" for s_ in specs):
+                specs[0].update(kind="pmatrx", fileChi=False)
         plan_ = plant_conflict(rng, fam, specs, conflict, "c%d" % i)
         if plan_ is None:
             rec.skip("conflict kind %s not applicable to the generated target (no such data in it)" % conflict)
@@ -883,9 +952,18 @@ def plant_conflict(rng, fam, specs, conflict, tag):
         if conflict.endswith("premerged"):
             # offender = the very file the target already holds for that label + another kind of data for it
             otherKind = rng.choice([k for k in KINDS if k != kind])
-            extra = gen_libspec(rng, fam, otherKind, label[-2:], [clashName] + others[:1], tag + ".xg")
             if (otherKind, label) in have:
                 return None
+            # ... and for the other labels of that file which the target does not yet hold such data for (the usual production set:
+            # the ISOTXS, GAMISO and PMATRX files of one cross-section ID name the same nuclides)
+            ownerNames = [n for n in owner.get("names", []) if n != clashName and (otherKind, LABEL_OF[n] + label[-2:]) not in have]
+            if ownerNames and rng.random() < 0.35:
+                # the clash comes late: the offender first brings legitimate new data (another kind) for OTHER labels the target
+                # holds, then different data of the same kind for the clashing label
+                extra = gen_libspec(rng, fam, otherKind, label[-2:], ownerNames, tag + ".xg")
+                clash = gen_libspec(rng, fam, kind, label[-2:], [clashName], tag + ".xc")
+                return specs, xfam, {"composite": [extra, clash], "tag": tag + ".x"}, "%s-for-other-labels-then-different-%s" % (otherKind, kind)
+            extra = gen_libspec(rng, fam, otherKind, label[-2:], [clashName] + ownerNames + [n for n in others[:1] if n not in ownerNames], tag + ".xg")
             x = {"composite": [dict(owner), extra], "tag": tag + ".x"}
             return specs, xfam, x, "%s-again+%s" % (kind, otherKind)
         if rng.random() < 0.25 and "composite" not in owner:
@@ -1015,7 +1093,7 @@ def micro_table(lib, suffix):
         if str(label)[-2:] != suffix:
             continue
         d = {k: nuc.micros.__dict__.get(k) for k in VEC + MATS + ("transport", "total", "neutronsPerFission", "chi")}
-        g = {("g:" + k): nuc.gammaXS.__dict__.get(k) for k in VEC + ("transport", "total")}
+        g = {("g:" + k): nuc.gammaXS.__dict__.get(k) for k in VEC + MATS + ("transport", "total", "neutronsPerFission")}
         d.update(g)
         d["efiss"] = nuc.isotxsMetadata["efiss"]
         d["ecapt"] = nuc.isotxsMetadata["ecapt"]
@@ -1040,7 +1118,59 @@ def gen_composition(rng, present, missing, allowMissing=True):
     return d
 
 
-def judge_macros(rec, rng, lib, suffix, table, witness, hit="macro", haveGamma=False, havePmatrx=False):
+def judge_creator_output(rec, mac, table, dens, nm_, w, pre, ng, hit, sfx, judgeChi=True):
+    """One XSCollection made by the creator against the reference sums (pre = '' neutron table, 'g:' gamma table)."""
+    REL = TOLERANCES["macro_rel"]
+    rec.hit(hit + ".creator" + sfx)
+    refv = {}
+    for k in VEC + ("transport", "total"):
+        refv[k] = ref_sum(table, dens, pre + k)
+    refv["nuSigF"] = ref_sum(table, dens, pre + "fission", pre + "neutronsPerFission")
+    for k in MATS:
+        refv[k] = ref_sum(table, dens, pre + k)
+    for k, (want, mag) in refv.items():
+        got = getattr(mac, k)
+        if want is None:
+            want, mag = (np.zeros((ng, ng)), np.zeros((ng, ng))) if k in MATS else (None, None)
+        if want is None:
+            continue
+        if got is None or not close(dense(got), want, mag, REL):
+            rec.violation("macro/creator-not-weighted-sum/%s%s" % (pre, k), "macros.%s (%s table) for %s differs from sum N*sigma" % (k, pre or "neutron", nm_), dict(w, field=k, composition=nm_))
+    # derived quantities from their defining sums (of the reference values)
+    rec.hit(hit + ".derived" + sfx)
+    zeros = np.zeros(ng)
+    absr = sum((refv[k][0] if refv[k][0] is not None else zeros) for k in VEC)
+    absmag = sum((refv[k][1] if refv[k][1] is not None else zeros) for k in VEC)
+    if not close(mac.absorption, absr, absmag, 4 * REL):
+        rec.violation("macro/derived/%sabsorption" % pre, "absorption != nGamma+fission+nalph+np+nd+nt+n2n for %s" % nm_, dict(w, got=np.asarray(mac.absorption).tolist(), want=np.asarray(absr).tolist()))
+    zm = np.zeros((ng, ng))
+    el, inel, n2n = [(refv[k][0] if refv[k][0] is not None else zm) for k in MATS]
+    tot = el + inel + 2.0 * n2n
+    if not close(dense(mac.totalScatter), tot, np.abs(tot), 4 * REL):
+        rec.violation("macro/derived/%stotalScatter" % pre, "totalScatter != elastic + inelastic + 2*n2n for %s" % nm_, dict(w, composition=nm_))
+    n2nv = refv["n2n"][0] if refv["n2n"][0] is not None else zeros
+    rem = absr - n2nv + tot.sum(axis=0) - np.diag(tot)
+    remmag = absmag + np.abs(tot).sum(axis=0)
+    if not close(mac.removal, rem, remmag, 8 * REL):
+        rec.violation("macro/derived/%sremoval" % pre, "removal != absorption - n2n + out-scatter for %s" % nm_, dict(w, got=np.asarray(mac.removal).tolist(), want=np.asarray(rem).tolist()))
+    tr = refv["transport"][0]
+    if tr is not None and np.all(tr > 0):
+        if not close(mac.diffusionConstants, 1.0 / (3.0 * tr), 1.0 / (3.0 * tr), 8 * REL):
+            rec.violation("macro/derived/%sdiffusionConstants" % pre, "D != 1/(3 Sigma_tr) for %s" % nm_, dict(w, composition=nm_))
+    if judgeChi:
+        # block-average chi: fission-source weighted mean (documented formula)
+        num, den = np.zeros(ng), 0.0
+        for n in sorted(dens):
+            if n in table and dens[n]:
+                src = float(np.sum(np.asarray(table[n]["neutronsPerFission"]) * np.asarray(table[n]["fission"])))
+                num = num + np.asarray(table[n]["chi"]) * dens[n] * src
+                den += dens[n] * src
+        wantChi = num / den if den else np.zeros(ng)
+        if not close(mac.chi, wantChi, np.maximum(np.abs(wantChi), 1e-30), TOLERANCES["chi_rel"]):
+            rec.violation("macro/derived/chi", "macros.chi is not the fission-source weighted mean for %s" % nm_, dict(w, composition=nm_))
+
+
+def judge_macros(rec, rng, lib, suffix, table, witness, hit="macro", haveGamma=False, havePmatrx=False, multLib=None):
     """All macroscopic oracles for one library+suffix and a freshly drawn pair of compositions."""
     from armi.nuclearDataIO import xsCollections as xc
     from armi.utils import units
@@ -1139,79 +1269,104 @@ def judge_macros(rec, rng, lib, suffix, table, witness, hit="macro", haveGamma=F
             rec.violation("macro/empty-composition/creator-raises-%s" % type(e).__name__,
                           "createMacrosFromMicros raises %s for %s: %s" % (type(e).__name__, label, str(e)[:160]), dict(witness, N=d))
 
-    # the creator: every output against the reference and the derived sums against their definitions
-    if nonempty:
-        complete = all(table[n][k] is not None for n in present for k in VEC + ("transport", "total", "neutronsPerFission", "chi"))
-        if not complete:
-            rec.skip("creator not judged: a nuclide of the suffix has no neutron data (gamma/production-only label)")
-        else:
-            macs = {}
+    # compositions naming nuclides the library does not hold: at zero density they contribute nothing, at a positive density
+    # the composition is refused (documented ValueError of computeMacroscopicGroupConstants)
+    n1m = dict(n1)
+    for n in missing[:3]:
+        n1m[n] = 0.0
+    n1p = dict(n1m)
+    if missing:
+        n1p[missing[-1]] = 0.004
+    wm = dict(w, N1_with_missing_at_zero=n1m, N1_with_missing_positive=n1p)
+
+    # the creator: every output against the reference and the derived sums against their definitions; once per table the
+    # production code asks for (libType="micros" neutron, libType="gammaXS" gamma - macroXSGenerationInterface passes its libType)
+    for libType, pre, sfx in (("micros", "", ""), ("gammaXS", "g:", "-gamma")):
+        if pre and not haveGamma:
+            continue
+        if not nonempty:
+            continue
+        need = VEC + ("transport", "total", "neutronsPerFission") + (() if pre else ("chi",))
+        if not all(table[n][pre + k] is not None for n in present for k in need) or not all(table[n][k] is not None for n in present for k in ("fission", "neutronsPerFission", "chi")):
+            rec.skip("creator (%s) not judged: a nuclide of the suffix lacks %s data (label with only other kinds of data)" % (libType, "gamma" if pre else "neutron"))
+            continue
+        ng = len(np.asarray(table[present[0]][pre + "nGamma"]))
+        comps = [("N1", n1), ("N2", n2), ("aN1+bN2", combo)] + ([("N1+missing@0", n1m)] if missing else [])
+        macs = {}
+        for nm_, dens in comps:
             try:
-                for nm_, dens in (("N1", n1), ("N2", n2), ("aN1+bN2", combo)):
-                    macs[nm_] = xc.MacroscopicCrossSectionCreator().createMacrosFromMicros(lib, Composition(dens, suffix))
+                macs[nm_] = xc.MacroscopicCrossSectionCreator().createMacrosFromMicros(lib, Composition(dens, suffix), libType=libType)
             except Exception as e:
-                rec.crash("createMacrosFromMicros", e, w)
-                macs = {}
-            for nm_, dens in (("N1", n1), ("N2", n2), ("aN1+bN2", combo)):
-                mac = macs.get(nm_)
-                if mac is None:
+                rec.crash("createMacrosFromMicros" + sfx, e, dict(wm, composition=nm_, libType=libType))
+                break
+        for nm_, dens in comps:
+            if nm_ in macs:
+                judge_creator_output(rec, macs[nm_], table, dens, nm_, wm, pre, ng, hit, sfx, judgeChi=not pre)
+                if nm_ == "N1+missing@0":
+                    rec.hit(hit + ".creator-missing")
+        if all(k in macs for k in ("N1", "N2", "aN1+bN2")):
+            rec.hit(hit + ".linearity")
+            for k in VEC + ("transport", "total", "nuSigF", "absorption", "removal") + MATS + ("totalScatter",):
+                x1, x2, x12 = dense(getattr(macs["N1"], k)), dense(getattr(macs["N2"], k)), dense(getattr(macs["aN1+bN2"], k))
+                scale = a * np.abs(x1) + b * np.abs(x2)
+                if k == "removal":  # a difference of sums: the error scales with the terms, not with the result
+                    scale = sum(f * (np.abs(np.asarray(macs[n].absorption)) + np.abs(dense(macs[n].totalScatter)).sum(axis=0)) for f, n in ((a, "N1"), (b, "N2")))
+                if not close(x12, a * x1 + b * x2, scale, 16 * REL):
+                    rec.violation("macro/creator-not-linear/%s%s" % (pre, k), "macros.%s(aN1+bN2) != a macros(N1) + b macros(N2)" % k, dict(w, field=k))
+        # nucNames=: only the named nuclides of the composition are summed (names the composition lacks count as density 0)
+        pos = sorted(n for n in combo if combo[n] and n in table)
+        if pos:
+            subset = sorted(rng.sample(pos, rng.randint(1, len(pos))))
+            extra = [n for n in present if n not in combo][:1] + missing[:1]
+            asked = subset + ([rng.choice(extra)] if extra and rng.random() < 0.5 else [])
+            wn = dict(w, nucNames=asked, libType=libType)
+            try:
+                mac = xc.MacroscopicCrossSectionCreator().createMacrosFromMicros(lib, Composition(combo, suffix), nucNames=list(asked), libType=libType)
+            except Exception as e:
+                rec.crash("createMacrosFromMicros-nucNames" + sfx, e, wn)
+                mac = None
+            if mac is not None:
+                rec.hit(hit + ".creator-nucnames")
+                # chi is documented as the block's fission-source average (all nuclides of the block): not judged here
+                judge_creator_output(rec, mac, table, {n: combo[n] for n in subset}, "aN1+bN2[nucNames]", wn, pre, ng, hit, sfx, judgeChi=False)
+        if missing:
+            try:
+                mac = xc.MacroscopicCrossSectionCreator().createMacrosFromMicros(lib, Composition(n1p, suffix), libType=libType)
+            except ValueError:
+                rec.reject("creator: composition with a positive density of a nuclide missing from the library refused (documented ValueError)")
+                rec.hit(hit + ".creator-missing")
+            except Exception as e:
+                rec.crash("createMacrosFromMicros-missing-nuclide" + sfx, e, dict(wm, libType=libType))
+            else:
+                rec.hit(hit + ".creator-missing")
+                judge_creator_output(rec, mac, table, n1p, "N1+missing>0 (accepted)", wm, pre, ng, hit, sfx, judgeChi=not pre)
+
+    # multLib=: the multiplier is taken from the same nuclide of another library; nuclides that library lacks contribute nothing
+    if multLib is not None:
+        mtable = micro_table(multLib, suffix)
+        for reaction, mult in (("fission", "neutronsPerFission"), ("fission", "efiss"), ("nGamma", "ecapt")):
+            for dens, nm_ in ((n1, "N1"), (combo, "aN1+bN2")):
+                if not all(table[n][reaction] is not None for n in present if dens.get(n)):
                     continue
-                rec.hit(hit + ".creator")
-                refv = {}
-                for k in VEC + ("transport", "total"):
-                    refv[k] = ref_sum(table, dens, k)
-                refv["nuSigF"] = ref_sum(table, dens, "fission", "neutronsPerFission")
-                for k in MATS:
-                    refv[k] = ref_sum(table, dens, k)
-                ng = len(np.asarray(table[present[0]]["nGamma"]))
-                for k, (want, mag) in refv.items():
-                    got = getattr(mac, k)
-                    if want is None:
-                        want, mag = (np.zeros((ng, ng)), np.zeros((ng, ng))) if k in MATS else (None, None)
-                    if want is None:
-                        continue
-                    if got is None or not close(dense(got), want, mag, REL):
-                        rec.violation("macro/creator-not-weighted-sum/%s" % k, "macros.%s for %s differs from sum N*sigma" % (k, nm_), dict(w, field=k))
-                # derived quantities from their defining sums (of the reference values)
-                rec.hit(hit + ".derived")
-                zeros = np.zeros(ng)
-                absr = sum((refv[k][0] if refv[k][0] is not None else zeros) for k in VEC)
-                absmag = sum((refv[k][1] if refv[k][1] is not None else zeros) for k in VEC)
-                if not close(mac.absorption, absr, absmag, 4 * REL):
-                    rec.violation("macro/derived/absorption", "absorption != nGamma+fission+nalph+np+nd+nt+n2n for %s" % nm_, dict(w, got=np.asarray(mac.absorption).tolist(), want=absr.tolist()))
-                zm = np.zeros((ng, ng))
-                el, inel, n2n = [(refv[k][0] if refv[k][0] is not None else zm) for k in MATS]
-                tot = el + inel + 2.0 * n2n
-                if not close(dense(mac.totalScatter), tot, np.abs(tot), 4 * REL):
-                    rec.violation("macro/derived/totalScatter", "totalScatter != elastic + inelastic + 2*n2n for %s" % nm_, w)
-                n2nv = refv["n2n"][0] if refv["n2n"][0] is not None else zeros
-                rem = absr - n2nv + tot.sum(axis=0) - np.diag(tot)
-                remmag = absmag + np.abs(tot).sum(axis=0)
-                if not close(mac.removal, rem, remmag, 8 * REL):
-                    rec.violation("macro/derived/removal", "removal != absorption - n2n + out-scatter for %s" % nm_, dict(w, got=np.asarray(mac.removal).tolist(), want=rem.tolist()))
-                tr = refv["transport"][0]
-                if tr is not None and np.all(tr > 0):
-                    if not close(mac.diffusionConstants, 1.0 / (3.0 * tr), 1.0 / (3.0 * tr), 8 * REL):
-                        rec.violation("macro/derived/diffusionConstants", "D != 1/(3 Sigma_tr) for %s" % nm_, w)
-                # block-average chi: fission-source weighted mean (documented formula)
-                num, den = np.zeros(ng), 0.0
+                wl = dict(w, reaction="%s*%s@multLib" % (reaction, mult), multLib_nuclides=sorted(mtable), composition=nm_)
+                try:
+                    got = gc(reaction, dens, libType="micros", multConstant=mult, multLib=multLib)
+                except Exception as e:
+                    rec.crash("computeMacroscopicGroupConstants-multLib", e, wl)
+                    continue
+                want, mag = None, None
                 for n in sorted(dens):
-                    if n in table and dens[n]:
-                        src = float(np.sum(np.asarray(table[n]["neutronsPerFission"]) * np.asarray(table[n]["fission"])))
-                        num = num + np.asarray(table[n]["chi"]) * dens[n] * src
-                        den += dens[n] * src
-                wantChi = num / den if den else np.zeros(ng)
-                if not close(mac.chi, wantChi, np.maximum(np.abs(wantChi), 1e-30), TOLERANCES["chi_rel"]):
-                    rec.violation("macro/derived/chi", "macros.chi is not the fission-source weighted mean for %s" % nm_, w)
-            if len(macs) == 3:
-                rec.hit(hit + ".linearity")
-                for k in VEC + ("transport", "total", "nuSigF", "absorption", "removal") + MATS + ("totalScatter",):
-                    x1, x2, x12 = dense(getattr(macs["N1"], k)), dense(getattr(macs["N2"], k)), dense(getattr(macs["aN1+bN2"], k))
-                    scale = a * np.abs(x1) + b * np.abs(x2)
-                    if k == "removal":  # a difference of sums: the error scales with the terms, not with the result
-                        scale = sum(f * (np.abs(np.asarray(macs[n].absorption)) + np.abs(dense(macs[n].totalScatter)).sum(axis=0)) for f, n in ((a, "N1"), (b, "N2")))
-                    if not close(x12, a * x1 + b * x2, scale, 16 * REL):
-                        rec.violation("macro/creator-not-linear/%s" % k, "macros.%s(aN1+bN2) != a macros(N1) + b macros(N2)" % k, dict(w, field=k))
+                    if dens[n] and n in table and n in mtable and mtable[n][mult] is not None:
+                        term = dens[n] * np.asarray(table[n][reaction]) * np.asarray(mtable[n][mult])
+                        want = term if want is None else want + term
+                        mag = np.abs(term) if mag is None else mag + np.abs(term)
+                if want is None:
+                    continue
+                rec.hit(hit + ".multlib")
+                if got is None or not close(got, want, mag, REL):
+                    rec.violation("macro/groupconstant-not-weighted-sum/multLib/%s*%s" % (reaction, mult),
+                                  "computeMacroscopicGroupConstants(%s, multConstant=%s, multLib=other library) differs from sum N*sigma*mult(other)" % (reaction, mult),
+                                  dict(wl, got=None if got is None else np.asarray(got).tolist(), want=want.tolist()))
 
     # energy deposition / generation constants
     for fn, attr, mult, factor, needs in (
@@ -1222,14 +1377,17 @@ def judge_macros(rec, rng, lib, suffix, table, witness, hit="macro", haveGamma=F
     ):
         if needs == "pmatrx" and not havePmatrx:
             continue
-        for dens, nm_ in ((n1, "N1"), (combo, "aN1+bN2")):
-            if not any(dens.get(n) for n in present):
+        for dens, nm_ in ((n1, "N1"), (combo, "aN1+bN2"), (n1m, "N1+missing@0"), (n1p, "N1+missing>0")):
+            if not any(dens.get(n) for n in present) or (not missing and nm_.startswith("N1+")):
                 continue
             usable = all((table[n][attr] if attr else table[n]["nGamma"]) is not None and (mult is None or table[n][mult] is not None) for n in present if dens.get(n))
             try:
                 got = getattr(xc, fn)(dens, lib, suffix)
             except Exception as e:
-                if usable:
+                if nm_ == "N1+missing>0" and isinstance(e, ValueError):
+                    rec.reject("%s: composition with a positive density of a nuclide missing from the library refused (documented ValueError)" % fn)
+                    rec.hit(hit + ".energy-missing")
+                elif usable:
                     rec.crash(fn, e, dict(w, fn=fn))
                 else:
                     rec.reject("%s refused: a nuclide of the composition has no such data in the library (%s)" % (fn, type(e).__name__))
@@ -1250,8 +1408,10 @@ def judge_macros(rec, rng, lib, suffix, table, witness, hit="macro", haveGamma=F
                 rec.skip("%s: no nuclide of the composition has the data, armi returned a value: not judged" % fn)
                 continue
             rec.hit(hit + ".energy")
+            if nm_.startswith("N1+"):
+                rec.hit(hit + ".energy-missing")
             if got is None or not close(got, want * factor, mag * factor, 4 * REL):
-                rec.violation("macro/energy-constants/%s" % fn, "%s for %s differs from the density-weighted sum" % (fn, nm_), dict(w, fn=fn))
+                rec.violation("macro/energy-constants/%s" % fn, "%s for %s differs from the density-weighted sum" % (fn, nm_), dict(wm, fn=fn, composition=nm_))
     return n1, n2
 
 
@@ -1311,11 +1471,326 @@ def do_macro(spec, rec):
             report_legal_merge_failure(rec, e, sources, witness, "macro-setup-merge")
             continue
         table = micro_table(lib, xsid)
-        n1, n2 = judge_macros(rec, rng, lib, xsid, table, witness, haveGamma=haveG, havePmatrx=haveP)
+        # a second, separate library of the same suffix holding other multipliers for some of the nuclides (multLib=)
+        mspec = gen_libspec(rng, fam, "isotxs", xsid, rng.sample(names, rng.randint(1, len(names))), "q%d.m" % i, fileChi=False)
+        msrc = make_source(mspec, fam)
+        sources.append(msrc)
+        witness["multLib"] = mspec
+        n1, n2 = judge_macros(rec, rng, lib, xsid, table, witness, haveGamma=haveG, havePmatrx=haveP, multLib=msrc.fresh())
         judge_total_scatter(rec, lib, witness)
         rec.case(["macro", fam["ng"], fam["ngam"], [spec_sig(s) for s in specs], sorted(n1), sorted(n2)],
                  nontrivial=bool(n1 or n2), sample={"suffix": xsid, "libs": [spec_sig(s) for s in specs], "N1": n1, "N2": n2} if i < 2 else None)
         _cleanup(sources)
+
+
+# ============================================================================= COMPXS (region) libraries
+CX_VECTORS = ("fissionWattSeconds", "captureWattSeconds", "compFamiliesWithPrecursors")  # one entry per region (COMPXS records 2D/5D)
+CX_PROPS = ("neutronEnergyUpperBounds", "neutronVelocity")
+
+
+def gen_cx_family(rng, ng=None):
+    ng = ng or rng.choice([1, 2, 3, 3, 4, 5, 6])
+    return {"ng": ng, "bounds": descending(rng, ng, 1.0, 1.4e7), "vel": descending(rng, ng, 1e5, 5e9), "emin": f32(rng.choice([0.0, 1e-5, 0.414])),
+            "maxUp": rng.choice([0, 0, 1, 2]), "maxOrd": rng.choice([0, 0, 1, 2, 3])}
+
+
+def build_compxs(spec, fam):
+    """A real CompxsLibrary of spec['nreg'] regions (numbers 0..n-1) with random macroscopic data, built through CompxsRegion."""
+    from scipy import sparse
+
+    from armi.nuclearDataIO import xsLibraries
+    from armi.nuclearDataIO.cccc import compxs
+    from armi.nuclearDataIO.nuclearFileMetadata import REGIONXS_POWER_CONVERT_DIRECTIONAL_DIFF
+    from armi.utils import properties
+
+    vr = random.Random(spec["vseed"])
+    ng, n = fam["ng"], spec["nreg"]
+    lib = xsLibraries.CompxsLibrary()
+    md = lib.compxsMetadata
+    fissile = [vr.random() < 0.5 for _ in range(n)]
+    for k, v in (("numComps", n), ("numGroups", ng), ("fileWideChiFlag", 0), ("numFissComps", sum(fissile)), ("maxUpScatterGroups", min(fam["maxUp"], ng - 1)),
+                 ("maxDownScatterGroups", ng - 1), ("numDelayedFam", 0), ("maxScatteringOrder", fam["maxOrd"]), ("reservedFlag1", 0), ("reservedFlag2", 0),
+                 ("minimumNeutronEnergy", fam["emin"])):
+        md[k] = v
+    md["compFamiliesWithPrecursors"] = np.zeros(n, dtype=int)
+    md["fissionWattSeconds"] = rvals(vr, n, 1e10, 4e10)
+    md["captureWattSeconds"] = rvals(vr, n, 1e11, 9e11)
+    properties.unlockImmutableProperties(lib)
+    try:
+        lib.neutronVelocity = np.array(fam["vel"] if spec["sameVelocity"] else [f32(v * 1.5) for v in fam["vel"]], dtype=float)
+        lib.neutronEnergyUpperBounds = np.array(fam["bounds"], dtype=float)
+    finally:
+        properties.lockImmutableProperties(lib)
+    for i in range(n):
+        reg = compxs.CompxsRegion(lib, i)
+        m = reg.metadata
+        m["chiFlag"] = 1 if fissile[i] else 0
+        up = [min(md["maxUpScatterGroups"], ng - 1 - g, vr.randint(0, 2)) for g in range(ng)]
+        down = [vr.randint(0, g) for g in range(ng)]
+        m["numUpScatterGroups"] = np.array(up)
+        m["numDownScatterGroups"] = np.array(down)
+        reg.allocateXS(ng)
+        for xs in ("absorption", "total", "removal", "transport"):
+            reg.macros[xs] = rvals(vr, ng, 0.001, 2.0)
+        reg.macros.n2n = rvals(vr, ng, 0.0, 0.01, pzero=0.5)
+        if fissile[i]:
+            reg.macros.fission = rvals(vr, ng, 0.001, 0.2)
+            reg.macros.nuSigF = rvals(vr, ng, 0.002, 0.6)
+            reg.macros.chi = np.array([rvals(vr, 1, 0.0, 1.0) for _ in range(ng)])
+
+        def band():
+            d = np.zeros((ng, ng))
+            for g in range(ng):  # column g holds rows g-down..g+up (COMPXS stores the scatter INTO group g)
+                for r in range(g - down[g], g + up[g] + 1):
+                    d[r, g] = f32(vr.uniform(0.001, 1.0))
+            return sparse.csc_matrix(d)
+
+        reg.macros.totalScatter = band()
+        for order in range(1, fam["maxOrd"] + 1):
+            reg.macros.higherOrderScatter[order] = band()
+        for datum in REGIONXS_POWER_CONVERT_DIRECTIONAL_DIFF:
+            m[datum] = [f32(vr.uniform(0.5, 2.0)) for _ in range(ng)]
+    return lib
+
+
+class CxSource:
+    """One COMPXS library of a merge set; fresh() gives independent copies, obs is what it held when made."""
+
+    def __init__(self, spec, reader, path):
+        self.spec, self.reader, self.path, self.n = spec, reader, path, 0
+        self.master = reader(path)
+        self.obs = obs_compxs(self.master)
+        md = self.master.compxsMetadata
+        self.vectors = {k: np.array(md[k]) for k in CX_VECTORS}
+        self.nreg = len(self.obs["labels"])
+
+    def fresh(self):
+        self.n += 1
+        return self.reader(self.path) if self.n % 3 == 0 else copy.deepcopy(self.master)
+
+
+def make_cx_source(spec, fam):
+    """Generated COMPXS library, written with armi's writer and read back: the judged objects are what the reader produces."""
+    from armi.nuclearDataIO.cccc import compxs
+
+    built = build_compxs(spec, fam)
+    _counter[0] += 1
+    path = os.path.abspath("compxs-%d" % _counter[0])
+    compxs.writeBinary(built, path)
+    _paths.append(path)
+    return CxSource(spec, compxs.readBinary, path)
+
+
+def obs_compxs(lib):
+    o = {"labels": tuple(lib._orderedNuclideLabels), "dictLabels": tuple(sorted(lib._regions)),
+         "props": {p: norm(lib.__dict__.get("_" + p, None)) for p in CX_PROPS},
+         "meta": {"data": {str(k): norm(v) for k, v in lib.compxsMetadata.items() if v is not None}, "fileNames": tuple(str(x) for x in lib.compxsMetadata.fileNames),
+                  "cls": type(lib.compxsMetadata).__name__},
+         "regions": {}}
+    for key, reg in lib._regions.items():
+        o["regions"][key] = {"metadata": {str(k): norm(v) for k, v in reg.metadata.items() if v is not None}, "macros": obs_collection(reg.macros),
+                             "inContainer": reg.container is lib, "regionNumber": reg.regionNumber,
+                             "extraAttrs": tuple(sorted(set(reg.__dict__) - {"container", "regionNumber", "macros", "metadata"}))}
+    return o
+
+
+def check_cx_merged(rec, merged, ordered, witness):
+    """Judge a merged COMPXS library against the observations of its sources, in the order they were merged."""
+    om = obs_compxs(merged)
+    total = sum(s.nreg for s in ordered)
+    rec.hit("compxs.union")
+    if om["labels"] != tuple(range(total)) or om["dictLabels"] != tuple(range(total)) or len(merged) != total or len(merged.regions) != total:
+        rec.violation("compxs-merge/region-labels-not-0..n-1", "merged region labels %s (dict %s), sources hold %s regions" % (list(om["labels"])[:12], list(om["dictLabels"])[:12],
+                      [s.nreg for s in ordered]), witness)
+    offset = 0
+    stale = 0
+    for si, s in enumerate(ordered):
+        for j in range(s.nreg):
+            have = om["regions"].get(offset + j)
+            want = s.obs["regions"][j]
+            if have is None:
+                continue  # reported by the label check
+            rec.hit("compxs.region-identity")
+            if not have["inContainer"]:
+                rec.violation("compxs-merge/region-container-not-target", "region %d .container is not the merged library" % (offset + j), witness)
+            for part in ("metadata", "macros", "extraAttrs"):
+                if have[part] != want[part]:
+                    where = diff_paths(want[part], have[part]) if isinstance(want[part], dict) else [""]
+                    rec.violation("compxs-merge/region-data-differs/%s" % part, "merged region %d differs from region %d of source %d at %s" % (offset + j, j, si, where[:4]),
+                                  dict(witness, region=offset + j, part=part))
+            stale += have["regionNumber"] != offset + j
+        offset += s.nreg
+    if stale:
+        rec.add("compxs: merged regions whose .regionNumber attribute still is the number in the source (not judged; the library key is the label)", stale)
+    rec.hit("compxs.library-level")
+    vals = [s.obs["props"]["neutronEnergyUpperBounds"] for s in ordered]
+    if om["props"]["neutronEnergyUpperBounds"] != vals[0]:
+        rec.violation("compxs-merge/property-differs/neutronEnergyUpperBounds", "merged bounds differ from the sources'", witness)
+    if om["props"]["neutronVelocity"] not in [s.obs["props"]["neutronVelocity"] for s in ordered]:
+        rec.violation("compxs-merge/property-differs/neutronVelocity", "merged neutronVelocity equals no source's", witness)
+    md = merged.compxsMetadata
+    keys = set(om["meta"]["data"])
+    for s in ordered:
+        keys |= set(s.obs["meta"]["data"])
+    for k in sorted(keys):
+        hv = om["meta"]["data"].get(k)
+        if k == "numComps":
+            if hv != ("i", total):
+                rec.violation("compxs-merge/file-metadata-differs/numComps", "numComps %s after merging %s regions" % (short(hv), total), witness)
+        elif k == "numFissComps":
+            want = sum(int(s.master.compxsMetadata[k]) for s in ordered)
+            if hv is None or hv[1] != want:
+                rec.violation("compxs-merge/file-metadata-differs/numFissComps", "numFissComps %s, sum over the sources %d" % (short(hv), want), witness)
+        elif k in CX_VECTORS:
+            want = np.concatenate([s.vectors[k] for s in ordered])
+            got = None if md[k] is None else np.asarray(md[k])
+            if got is None or got.shape != want.shape or got.tolist() != want.tolist():
+                try:
+                    added = got is not None and len(ordered) > 1 and got.tolist() == np.asarray(sum(np.asarray(s.vectors[k]) for s in ordered)).tolist()
+                except ValueError:
+                    added = False
+                rec.violation("compxs-merge/per-region-metadata/%s" % ("added-elementwise-instead-of-concatenated" if added else "differs"),
+                              "%s holds one value per region; merged %s, sources in merge order %s" % (k, None if got is None else got.tolist()[:12], want.tolist()[:12]),
+                              dict(witness, key=k, merged=None if got is None else got.tolist(), sources=[s.vectors[k].tolist() for s in ordered]))
+        else:
+            vals = [s.obs["meta"]["data"][k] for s in ordered if k in s.obs["meta"]["data"]]
+            if not vals:
+                rec.violation("compxs-merge/file-metadata-from-nowhere/%s" % k, "metadata %s appeared" % k, witness)
+            elif any(v != vals[0] for v in vals):
+                raise AssertionError("harness: legal COMPXS set with conflicting metadata %s" % k)
+            elif hv != vals[0]:
+                rec.violation("compxs-merge/file-metadata-differs/%s" % k, "metadata %s = %s, sources have %s" % (k, short(hv), short(vals[0])), witness)
+    wantFiles = sorted(f for s in ordered for f in s.obs["meta"]["fileNames"])
+    if sorted(om["meta"]["fileNames"]) != wantFiles:
+        rec.violation("compxs-merge/fileNames-not-union", "fileNames %s, sources %s" % (sorted(om["meta"]["fileNames"]), wantFiles), witness)
+    # order-free content: the multiset of regions
+    return sorted(repr((r["metadata"], r["macros"])) for r in om["regions"].values())
+
+
+def cx_changes(before, after):
+    ch = []
+    if before["labels"] != after["labels"] or before["dictLabels"] != after["dictLabels"]:
+        ch.append("regions")
+    if before["props"] != after["props"]:
+        ch.append("properties")
+    if before["meta"] != after["meta"]:
+        ch.append("library-metadata")
+    if any(after["regions"].get(k) != v for k, v in before["regions"].items()):
+        ch.append("existing-region-modified")
+    return ch
+
+
+def do_compxs(spec, rec):
+    from armi.nuclearDataIO import xsLibraries
+    from armi.nuclearDataIO.cccc import compxs
+
+    base = spec["rng"]
+    fixPath = os.path.join(os.environ.get("VERIF_REPO", "/repo"), "armi", "tests", "COMPXS.ascii")
+    fixture = CxSource({"fixture": "COMPXS.ascii"}, compxs.readAscii, fixPath)
+    fixFam = {"ng": 11, "bounds": np.asarray(fixture.master.neutronEnergyUpperBounds).tolist(), "vel": np.asarray(fixture.master.neutronVelocity).tolist(),
+              "emin": fixture.master.compxsMetadata["minimumNeutronEnergy"], "maxUp": fixture.master.compxsMetadata["maxUpScatterGroups"],
+              "maxOrd": fixture.master.compxsMetadata["maxScatteringOrder"]}
+    for i in range(spec["n"]):
+        rng = random.Random("%s:%d" % (base, i))
+        withFixture = i % 5 == 0
+        fam = dict(fixFam) if withFixture else gen_cx_family(rng)
+        m = rng.choice([2, 2, 3, 3, 4])
+        same = rng.random() < 0.5
+        n0 = 3 if withFixture else rng.randint(1, 4)
+        sameVel = rng.random() < 0.7
+        specs = [{"nreg": n0 if same else rng.randint(1, 4), "vseed": "x%d.%d/%d" % (i, j, rng.getrandbits(40)), "sameVelocity": sameVel or j == 0}
+                 for j in range(m - (1 if withFixture else 0))]
+        try:
+            sources = [make_cx_source(s_, fam) for s_ in specs]
+        except Exception as e:
+            rec.crash("compxs-write-read-generated", e, {"case": i, "family": fam, "libs": specs})
+            continue
+        if withFixture:
+            sources.insert(rng.randrange(len(sources) + 1), fixture)
+        witness = {"case": i, "family": fam, "libs": [s_.spec for s_ in sources], "regions": [s_.nreg for s_ in sources]}
+        sig = ["compxs", fam["ng"], fam["maxOrd"], [s_.nreg for s_ in sources], [s_.spec.get("vseed", "fixture") for s_ in sources]]
+        ref = None
+        for pi, perm in enumerate(itertools.permutations(range(len(sources)))):
+            intoEmpty = pi % 2 == 0
+            w = dict(witness, order=list(perm), intoEmpty=intoEmpty)
+            ordered = [sources[j] for j in perm]
+            target = xsLibraries.CompxsLibrary() if intoEmpty else ordered[0].fresh()
+            done = 0 if intoEmpty else 1
+            failed = False
+            for s_ in ordered[done:]:
+                before = obs_compxs(target)
+                tv = target.compxsMetadata["fissionWattSeconds"]
+                tlen = None if tv is None else len(np.atleast_1d(tv))
+                try:
+                    target.merge(s_.fresh())
+                except Exception as e:  # a legal set must merge
+                    failed = True
+                    if isinstance(e, ValueError) and "broadcast" in str(e) and tlen not in (None, s_.nreg):
+                        rec.violation("compxs-merge/legal-set-refused/per-region-metadata-added-elementwise/ValueError",
+                                      "legal COMPXS merge raises ValueError (%s): the per-region metadata vectors (length %d in the target holding %d regions, %d in the "
+                                      "merged-in library) are added elementwise" % (str(e)[:90], tlen, len(before["labels"]), s_.nreg), w)
+                    else:
+                        rec.crash("compxs-merge-legal-set", e, w)
+                    rec.hit("compxs.unchanged-check")
+                    ch = cx_changes(before, obs_compxs(target))
+                    if ch:
+                        rec.violation("compxs-merge/refused-but-target-changed/%s" % "+".join(ch), "COMPXS merge raised %s and the target changed: %s" % (type(e).__name__, ch), w)
+                    break
+                done += 1
+            if not failed:
+                rec.hit("compxs.order")
+                can = check_cx_merged(rec, target, ordered, w)
+                if ref is None:
+                    ref = can
+                else:
+                    rec.hit("compxs.order-independence")
+                    if can != ref:
+                        rec.violation("compxs-merge/order-dependent/regions", "the multiset of merged regions depends on the merge order", w)
+            rec.case([sig, list(perm), intoEmpty], nontrivial=len(sources) >= 2, sample=dict(w, merged_regions=len(target)) if i < 2 and pi == 0 else None)
+        # conflicts: another group structure must be refused and leave the target as it was
+        for how in ("count", "value", "ulp", "metadata"):
+            xfam = dict(fam)
+            if how == "count":
+                f2 = gen_cx_family(rng, ng=rng.choice([g for g in range(1, 7) if g != fam["ng"]]))
+                xfam.update(ng=f2["ng"], bounds=f2["bounds"], vel=f2["vel"])
+            elif how == "metadata":
+                key = rng.choice(["maxOrd", "emin"])
+                xfam[key] = fam["maxOrd"] + 1 if key == "maxOrd" else f32(fam["emin"] + 1.0)
+            else:
+                nb = list(fam["bounds"])
+                j = rng.randrange(len(nb))
+                nb[j] = float(np.nextafter(np.float32(nb[j]), np.float32(0))) if how == "ulp" else f32(nb[j] * 0.999)
+                if nb[j] == fam["bounds"][j]:
+                    nb[j] = nb[j] * 0.999
+                xfam["bounds"] = nb
+            xspec = {"nreg": rng.randint(1, 3), "vseed": "x%d.c%s/%d" % (i, how, rng.getrandbits(40)), "sameVelocity": True}
+            w = dict(witness, conflict=how, offender=xspec, offender_family_changes={k: v for k, v in xfam.items() if fam.get(k) != v})
+            try:
+                offender = make_cx_source(xspec, xfam).fresh()
+                target = sources[0].fresh()
+                if rng.random() < 0.5 and len(sources) > 1 and sources[1].nreg == sources[0].nreg:
+                    target.merge(sources[1].fresh())
+            except Exception as e:
+                rec.crash("compxs-conflict-setup", e, w)
+                continue
+            before = obs_compxs(target)
+            try:
+                target.merge(offender)
+            except Exception as e:
+                rec.hit("compxs.conflict.refused")
+                rec.hit("compxs.conflict.refused/%s" % ("group-structure" if how != "metadata" else "file-metadata"))
+                rec.reject("compxs %s conflict refused with %s" % (how, type(e).__name__))
+                rec.hit("compxs.unchanged-check")
+                ch = cx_changes(before, obs_compxs(target))
+                if ch:
+                    rec.violation("compxs-merge/refused-but-target-changed/%s" % "+".join(ch), "COMPXS merge refused (%s) but the target changed: %s" % (type(e).__name__, ch), w)
+            else:
+                if how == "metadata":
+                    rec.skip("compxs file-metadata difference accepted by armi (not a conflict the property names)")
+                else:
+                    rec.violation("compxs-merge/conflict-silently-merged/group-structure", "a COMPXS library with another group structure (%s) was merged without an error" % how, w)
+            rec.case(["compxs-conflict", how, sig], sample=w if i < 1 else None)
+        _cleanup()
 
 
 # ============================================================================= fixtures
